@@ -61,6 +61,9 @@ struct Obj {
 	bool neg_pending = false; uint32_t neg_gen = 0; int neg_fd = -1;   // the callback closed its descriptor and will return a negative value
 	bool retneg_armed = false; int64_t ready_since = -1; int64_t fdl = -1; bool always_ready = false;
 	bool fdl_at_poll = false;
+	// qb_loop_poll_mod of an entry that is already queued leaves it in the queue of its old level and takes effect at the
+	// next queueing: until its callback runs the model does not say which of the two levels holds it
+	bool lvl_unknown = false; int oldprio = 0;
 	bool salt = false;                   // signal handler: which of the two callback entry points is the registered one            // the descriptor joins its level's queue at the next poll: everything queued until then is ahead of it
 	// signal handler
 	qb_loop_signal_handle sh = NULL; bool sreg = false; int sprio = 0; int signo = 0; int must = 0, may = 0; int64_t s_since = -1; int64_t sdl = -1;
@@ -155,7 +158,7 @@ static int level_regs(int p)
 	for (size_t i = 0; i < L.objs.size(); i++) {
 		Obj &o = L.objs[i];
 		if (o.type == O_TIMER && o.tpend && o.tprio == p) n++;
-		if (o.type == O_FD && o.reg && o.fprio == p) n++;
+		if (o.type == O_FD && o.reg && (o.fprio == p || (o.lvl_unknown && o.oldprio == p))) n++;
 		if (o.type == O_SIG && o.sreg && o.sprio == p) n += o.must + o.may + 1;
 	}
 	if (p == QB_LOOP_HIGH) n++;      // the signal pipe
@@ -284,6 +287,7 @@ static int32_t fd_cb(int32_t fd, int32_t revents, void *data)
 	Obj &o = L.objs[(size_t)rg->obj];
 	ev(302, o.id, revents);
 	note_callback(o.fprio);
+	if (o.lvl_unknown) { if (o.oldprio != o.fprio) L.disp_iter[o.oldprio]++; o.lvl_unknown = false; }
 	if (!o.reg || rg->gen != o.gen) {
 		VIOL(8, "fd-callback-without-registration", "qb_loop_poll_add", "descriptor object %d called back (fd %d) although it was deleted or returned a negative value before", o.id, fd);
 		return 0;
@@ -492,7 +496,7 @@ static void do_op(size_t oi, int from_obj)
 		if (o.type != O_FD || o.rfd < 0 || o.reg || L.stopped) break;
 		int r = qb_loop_poll_add(LP, (enum qb_loop_priority)prio, o.rfd, POLLIN, new_cookie(o), fd_cb);
 		if (r != 0) { VIOL(8, "poll-add-failed", "qb_loop_poll_add", "qb_loop_poll_add(fd) returned %d", r); break; }
-		o.reg = true; o.fprio = prio; o.events = POLLIN;
+		o.reg = true; o.fprio = prio; o.events = POLLIN; o.lvl_unknown = false;
 		o.ready_since = -1; fd_mark_ready(o);
 		if (from_obj >= 0 && L.objs[(size_t)from_obj].neg_pending && L.objs[(size_t)from_obj].neg_fd == o.rfd) count(p_number_reused_in_cb);
 		break; }
@@ -504,8 +508,12 @@ static void do_op(size_t oi, int from_obj)
 		if (newdata) { new_cookie(o); count(p_fd_mod_data); }
 		int r = qb_loop_poll_mod(LP, (enum qb_loop_priority)prio, o.rfd, evs, o.cookie, fd_cb);
 		if (r != 0) { VIOL(8, "poll-mod-failed", "qb_loop_poll_mod", "qb_loop_poll_mod of registered descriptor object %d returned %d", o.id, r); break; }
+		if (o.ready_since >= 0 && prio != o.fprio) {
+			// possibly queued already: it then stays where it is (old level, old deadline); otherwise it queues at the new one
+			if (!o.lvl_unknown) { o.lvl_unknown = true; o.oldprio = o.fprio; }
+			int64_t d = deadline(prio) + 1; if (d > o.fdl) o.fdl = d;
+		}
 		o.fprio = prio; o.events = evs;
-		if (o.ready_since >= 0) o.fdl = deadline(prio) + 1;     // it queues at the new level from now on
 		break; }
 	case K_FD_DEL: {
 		if (o.type != O_FD || o.rfd < 0) break;
@@ -514,7 +522,7 @@ static void do_op(size_t oi, int from_obj)
 			if (r != 0) { VIOL(8, "delete-refused", "qb_loop_poll_del", "qb_loop_poll_del of registered descriptor object %d returned %d", o.id, r); break; }
 			if (o.ready_since >= 0 && o.ready_since < L.iter) count(p_del_queued_fd);
 			if (from_obj == tgt) count(p_self_del);
-			o.reg = false; o.ready_since = -1;
+			o.reg = false; o.ready_since = -1; o.lvl_unknown = false;
 		}
 		break; }
 	case K_FD_CLOSE: {
@@ -641,7 +649,7 @@ static void c10_iteration_boundary()
 			Obj &o = L.objs[i];
 			if (o.type == O_JOB && o.jprio == p && !o.jpend.empty() && o.jsince.front() <= L.iter - 3) old = true;
 			if (o.type == O_TIMER && o.tpend && o.tprio == p && o.first_iter_expired >= 0 && o.first_iter_expired <= L.iter - 3) old = true;
-			if (o.type == O_FD && o.reg && o.fprio == p && o.ready_since >= 0 && o.ready_since <= L.iter - 3) old = true;
+			if (o.type == O_FD && o.reg && !o.lvl_unknown && o.fprio == p && o.ready_since >= 0 && o.ready_since <= L.iter - 3) old = true;
 		}
 		// shift history (index 2 = the iteration that just ended)
 		L.hist_old[p][0] = L.hist_old[p][1]; L.hist_old[p][1] = L.hist_old[p][2]; L.hist_old[p][2] = old;
@@ -830,6 +838,20 @@ static void gen(const char *prop, RunSpec &spec)
 			p.add(0, K_FD_OPEN, -1, 0, nj + nt + k);
 			p.add(0, K_FD_WRITE, -1, 0, nj + nt + k, 3);
 			p.add(0, K_FD_ADD, -1, 0, nj + nt + k, manyfd && r.chance(5, 6) ? fdprio : r.below(3));
+		}
+		// a short history before the steady state: a descriptor moved to another level, removed and registered again
+		// while it may be queued (whatever happened before, the steady workload must be served fairly)
+		if (nf > 0 && nobj > 1 && r.chance(1, 4)) {
+			int nh = (int)r.range(1, 4);
+			for (int k = 0; k < nh; k++) {
+				int64_t nth; int64_t trg = pick_trigger(r, nobj, nth);
+				int64_t f = nj + nt + (int64_t)r.below((uint64_t)nf);
+				p.add(0, K_FD_MOD, trg, nth, f, r.below(3), r.below(4));
+				if (r.chance(2, 3)) {
+					p.add(0, K_FD_DEL, trg, nth, f);
+					p.add(0, K_FD_ADD, trg, nth + (int64_t)r.below(2), f, r.below(3));
+				}
+			}
 		}
 		// finite bursts on top
 		int nb = (int)r.range(0, 12);
